@@ -840,6 +840,35 @@ mod search_admission {
         });
     }
 
+    /// C13 (removal paths): a node dropped from the routing table by eviction / failure gives its slots back,
+    /// so another node with the same address is admitted afterwards.
+    #[test]
+    fn verif_search_c13_removal() {
+        let rt = tokio::runtime::Builder::new_current_thread().enable_all().build().expect("runtime");
+        rt.block_on(async {
+            for by_failure in [false, true] {
+                let mut e = DhtCoreEngine::new_for_tests(NodeId::from_bytes([0u8; 32])).expect("engine");
+                let first = node_at(0x80, 1, "10.7.0.1:9000");
+                let first_id = first.id.clone();
+                let r = e.add_node(first).await;
+                assert!(r.is_ok(), "setup: the first node must be admitted: {:?}", r);
+                if by_failure {
+                    let _ = e.handle_node_failure(first_id.clone()).await;
+                } else {
+                    let _ = e.evict_node(&first_id, crate::dht::routing_maintenance::EvictionReason::Stale).await;
+                }
+                let listed = { let t = e.routing_table.read().await; t.buckets.iter().any(|b| b.nodes.iter().any(|n| n.id == first_id)) };
+                assert!(!listed, "setup: the node must be gone from the routing table");
+                // the address is free again: a node with that address (other bucket) must be admitted
+                let second = e.add_node(node_at(0x40, 2, "10.7.0.1:9000")).await;
+                if let Err(err) = second {
+                    let what = if by_failure { "a_failed_node_dropped_from_the_routing_table_gives_back_its_ip_diversity_slots" } else { "eviction_gives_back_the_ip_diversity_slots_of_the_evicted_node" };
+                    panic!("VERIF-SEARCH-HIT C13/engine/{} history=[add_node(A, 10.7.0.1) -> Ok; {}(A); add_node(B, 10.7.0.1) -> {}]", what, if by_failure { "handle_node_failure" } else { "evict_node" }, err);
+                }
+            }
+        });
+    }
+
     /// C05 (request dispatch): store cap, find-node cap, retrieve round trip -- against a real engine.
     #[test]
     fn verif_search_reqh_c05() {
